@@ -144,6 +144,12 @@ def _bound_by(db, chk, m):
                     continue
                 want = want_tbl.get(mem) if mem in want_tbl else ("cpu_bound" if stream < 0 else ("gpu_communication_bound" if comm else "gpu_compute_bound"))
                 got = runs[0].ret
+                if not isinstance(got, str):
+                    # a conditional EXPRESSION at the end (`a if is_comm else b`) is a value-level decision: resolve it with the case's own truth value
+                    try:
+                        got = _eval_value(to_term(got), lambda leaf, comm=comm: comm if leaf in (("truthy", ("iscomm", T.P("NAME"))), ("iscomm", T.P("NAME"))) else (_ for _ in ()).throw(T.Unknown(leaf)))
+                    except T.Unknown:
+                        pass
                 chk.ob(rule, f"{tag}: class", got == want, where, found=got if isinstance(got, str) else T.show(to_term(got))[:80], accepted=want,
                        why="delay edges -> their overhead class; host thread -> cpu_bound; communication kernel -> gpu_communication_bound; other device activity -> gpu_compute_bound")
     # enum / string agreement: every string literal compared with row['type'] is the value of a CPEdgeType member
@@ -154,10 +160,11 @@ def _bound_by(db, chk, m):
                 for x in ast.walk(c):
                     if isinstance(x, ast.Constant) and isinstance(x.value, str):
                         lits.add(x.value)
-    chk.ob(rule, "every edge-type string tested in bound_by is the value of a CPEdgeType member (and all four non-span types are tested)", lits <= set(enum.values()) and
-           lits == {enum[k] for k in want_tbl}, where, found=sorted(lits), accepted=sorted(enum[k] for k in want_tbl), why="a misspelt literal sends delay edges to the compute/cpu classes")
+    # (which members are tested is decided by the table above; here only: no literal that is not an edge-type value; references CPEdgeType.X.value are fine)
+    chk.ob(rule, "every edge-type string literal tested in bound_by is the value of a CPEdgeType member", lits <= set(enum.values()), where, found=sorted(lits), accepted=sorted(enum[k] for k in want_tbl),
+           why="a misspelt literal sends delay edges to the compute/cpu classes")
     comm_test = [c for c in ast.walk(fn) if isinstance(c, ast.Call) and H.name_id(c.func) == "is_comm_kernel"]
-    chk.ob(rule, "communication kernels are recognised on the (decoded) event name", len(comm_test) == 1 and ast.unparse(comm_test[0].args[0]) == "row['s_name']", where, found=[ast.unparse(c) for c in comm_test], accepted="is_comm_kernel(row['s_name'])")
+    chk.ob(rule, "communication kernels are recognised on the (decoded) event name", len(comm_test) == 1 and ast.unparse(H.expand(fn, comm_test[0].args[0])) == "row['s_name']", where, found=[ast.unparse(c) for c in comm_test], accepted="is_comm_kernel(row['s_name'])")
     chk.floor(rule, 8)
 
 
